@@ -7,6 +7,7 @@ import (
 	"path"
 	"path/filepath"
 	"strconv"
+	"strings"
 	"sync"
 
 	"go.uber.org/zap"
@@ -166,6 +167,15 @@ func (d *Directory) AddTimeBucket(tbk *io.TimeBucketKey, f *io.TimeBucketInfo) (
 
 	catkeySplit := tbk.GetCategories()
 	datakeySplit := tbk.GetItems()
+
+	// Each item of the key becomes one directory level below the root directory.
+	// An empty item, "." or ".." (or an item with a path separator) would address
+	// a directory other than a child of the previous level - possibly outside the root.
+	for _, item := range datakeySplit {
+		if item == "" || item == "." || item == ".." || strings.ContainsRune(item, os.PathSeparator) {
+			return fmt.Errorf("invalid item %q in time bucket key", item)
+		}
+	}
 
 	dirname := d.GetPath()
 	for i, dataDirName := range datakeySplit {
